@@ -25,15 +25,24 @@ class OracleFn(ConvergenceController):
     """numerics stand-in: decisions are a deterministic function of (seed, step start, step size, iteration, restarts in a row)"""
 
     def setup(self, controller, params, description, **kwargs):
-        return {'control_order': -100, 'seed': 0, 'pconv': 50, 'prs': 0, 'pdt': 0, **super().setup(controller, params, description, **kwargs)}
+        return {'control_order': -100, 'seed': 0, 'pconv': 50, 'prs': 0, 'pdt': 0, 'real_residual': False, 'forced': (),
+                **super().setup(controller, params, description, **kwargs)}
 
     def post_iteration_processing(self, controller, S, **kwargs):
         L = S.levels[0]
         key = (self.params.seed, round(L.time / UNIT), round(L.dt / UNIT), S.status.iter, int(S.status.get('restarts_in_a_row') or 0))
         h = _h(*key)
-        L.status.residual = 0.0 if (h % 100) < self.params.pconv else 1.0
-        if ((h >> 8) % 100) < self.params.prs and (L.status.residual == 0.0 or S.status.iter >= S.params.maxiter):
+        if not self.params.real_residual:
+            L.status.residual = 0.0 if (h % 100) < self.params.pconv else 1.0
+        conv = L.status.residual <= L.params.restol
+        if ((h >> 8) % 100) < self.params.prs and (conv or S.status.iter >= S.params.maxiter):
             S.status.restart = True
+        for (ft, friar, fdt) in self.params.forced:
+            # scripted rejection: the step starting at tick ft with friar restarts in a row is restarted with step size fdt
+            if key[1] == ft and key[4] == friar and (conv or S.status.iter >= S.params.maxiter):
+                S.status.restart = True
+                L.status.dt_new = fdt * UNIT
+                return
         if ((h >> 16) % 100) < self.params.pdt:
             new = L.params.dt * (0.5 if (h >> 24) % 2 else 2.0)
             # keep step sizes on the lattice and bounded so that scripted runs stay finite
@@ -73,14 +82,15 @@ def description(cfg):
     useMPI = cfg['mpi']
     desc = dict(problem_class=pc, problem_params=pp, sweeper_class=generic_implicit,
                 sweeper_params=dict(num_nodes=nodes, quad_type='RADAU-RIGHT', QI='IE'),
-                level_params=dict(dt=cfg['DT0'] * UNIT, restol=0.5 if cfg.get('oracle', True) else cfg.get('restol', 1e-8),
+                level_params=dict(dt=cfg['DT0'] * UNIT, restol=0.5 if cfg.get('oracle', True) is True else cfg.get('restol', 1e-8),
                                   nsweeps=cfg.get('NSW', [1] * NL) if NL > 1 else cfg.get('NSW', [1])[0]),
                 step_params=dict(maxiter=cfg['MAXITER']),
                 convergence_controllers={BasicRestarting.get_implementation(useMPI=useMPI): dict(
                     max_restarts=cfg.get('MAXR', 3), crash_after_max_restarts=cfg.get('CRASH', True),
                     restart_from_first_step=cfg.get('RFF', False))})
     if cfg.get('oracle', True):
-        desc['convergence_controllers'][OracleFn] = dict(seed=cfg['seed'], pconv=cfg.get('pconv', 50), prs=cfg.get('prs', 0), pdt=cfg.get('pdt', 0))
+        desc['convergence_controllers'][OracleFn] = dict(seed=cfg['seed'], pconv=cfg.get('pconv', 50), prs=cfg.get('prs', 0), pdt=cfg.get('pdt', 0),
+                                                         real_residual=cfg.get('oracle') == 'restarts_only', forced=tuple(tuple(x) for x in cfg.get('forced', ())))
     if NL > 1:
         desc['space_transfer_class'] = mesh_to_mesh
         desc['space_transfer_params'] = dict(rorder=2, iorder=2)
